@@ -26,6 +26,11 @@ class Grid(object):
 
     def __init__(self, coords, weights=None):
         self.coords = coords
+
+        # Make a copy to avoid modification from outside the class
+        if weights is not None and np.ndim(weights) > 0:
+            weights = np.array(weights)
+
         self.weights = weights
 
     def copy(self):
